@@ -597,21 +597,47 @@ def sourcemap_section(chk):
                 return z3.BoolVal(p.value == {"other.py": ["other"], "f.py": want})
             chk.prove_paths(f"SourceMap.add_file[{before},{how}]:the-file's-entry-is-the-text-registered-now/\\other-files-untouched", paths, post, func=f"{SM}:SourceMap.add_file",
                             replay=lambda m_: {"script": REPLAY_RELOAD, "input": {}})
+    # the registered text is returned character for character (tabs included: spans count a tab as ONE column,
+    # so a line shown with expanded tabs would have its markers under the wrong characters)
+    LINE = lambda i: ("\t" * (i % 3)) + f"L{i}\tx = {i}  y"  # noqa: E731
     for sl in range(1, 5):
         for el in range(sl, 5):
             for pf in range(0, sl):
                 def t3(it, sl=sl, el=el, pf=pf):
                     S = it.lookup_global(m, "SourceMap")
                     sm = it.call(S, [], {})
-                    it.getattr(sm, "sources")["f.py"] = [f"L{i}" for i in range(1, 7)]
+                    it.getattr(sm, "sources")["f.py"] = [LINE(i) for i in range(1, 7)]
                     Loc = it.lookup_global(m, "Loc")
                     Sp = it.lookup_global(m, "Span")
                     sp = it.call(Sp, [it.call(Loc, ["f.py", sl, 0], {}), it.call(Loc, ["f.py", el, 1], {})], {})
                     return it.call_method(sm, "span_lines", [sp, pf])
                 chk.prove_paths(f"SourceMap.span_lines[{sl}..{el},prefix {pf}]:lines-(start-prefix)..end-of-the-registered-text", e.explore(t3),
-                                lambda p, sl=sl, el=el, pf=pf: z3.BoolVal(p.kind == "return" and p.value == [f"L{i}" for i in range(sl - pf, el + 1)]), func=f"{SM}:SourceMap.span_lines")
+                                lambda p, sl=sl, el=el, pf=pf: z3.BoolVal(p.kind == "return" and p.value == [LINE(i) for i in range(sl - pf, el + 1)]), func=f"{SM}:SourceMap.span_lines",
+                                replay=lambda m_: {"script": REPLAY_TABS, "input": {}})
     chk.use_engine(e)
 
+
+REPLAY_TABS = r'''
+from guppylang_internals.span import SourceMap, Span, Loc
+from guppylang_internals.diagnostic import DiagnosticsRenderer, Error
+from dataclasses import dataclass
+from typing import ClassVar
+src = "def f(y):\n\treturn y + 1.5\n"
+sm = SourceMap(); sm.add_file("<tabs>", src)
+lines = sm.span_lines(Span(Loc("<tabs>", 2, 8), Loc("<tabs>", 2, 15)), 0)
+@dataclass(frozen=True)
+class E(Error):
+    title: ClassVar[str] = "T"
+    span_label: ClassVar[str] = "here"
+r = DiagnosticsRenderer(sm)
+r.render_diagnostic(E(Span(Loc("<tabs>", 2, 8), Loc("<tabs>", 2, 15))))
+buf = r.buffer
+shown = [l for l in buf if "return" in l][0]
+marks = [l for l in buf if "^" in l][0]
+a, b = marks.index("^"), marks.rindex("^") + 1
+above = shown[a:b]
+print(json.dumps({"violates": lines != ["\treturn y + 1.5"] or above != "y + 1.5", "span_lines": lines, "text above the markers": above, "required": "y + 1.5"}))
+'''
 
 REPLAY_RELOAD = r'''
 import os, tempfile, shutil, linecache
